@@ -85,6 +85,9 @@ func NewDirective(config DirectiveConfig) *Directive {
 		if dir.err = assertValidName(argName); dir.err != nil {
 			return dir
 		}
+		if dir.err = invariantf(argConfig != nil, `@%v(%v:) must have an argument configuration.`, config.Name, argName); dir.err != nil {
+			return dir
+		}
 		args = append(args, &Argument{
 			PrivateName:        argName,
 			PrivateDescription: argConfig.Description,
